@@ -153,3 +153,23 @@ def gen_kernel(metric, nd):
             a['settings'] = {'struct': s}
             yield a
     return g
+
+
+def gen_kernel_ea(metric):
+    """small DTW problems with an early-abandoning bound (C03): no psi, bounds from well below to well above the distances that occur"""
+    def g(rng, n):
+        for _ in range(n):
+            l1, l2 = rng.randint(1, 6), rng.randint(1, 6)
+            if rng.random() < 0.3:
+                l2 = l1
+            s = dict(window=0, max_dist=fx(rng.choice([0.3, 0.75, 1.0, 1.5, 2.0, 2.6, 3.2, 4.5, 6.0, 9.0])), max_step=fx(0),
+                     max_length_diff=0, penalty=fx(0), psi_1b=0, psi_1e=0, psi_2b=0, psi_2e=0, use_pruning=False, only_ub=False,
+                     inner_dist=metric, window_type=0)
+            if rng.random() < 0.6:
+                s['window'] = rng.randint(1, 3)
+            if rng.random() < 0.3:
+                s['penalty'] = fx(rng.choice([0.5, 1.0, 2.0]))
+            if rng.random() < 0.25:
+                s['max_step'] = fx(rng.choice([1.5, 3.0]))
+            yield dict(s1={'buf': series(rng, l1)}, l1=l1, s2={'buf': series(rng, l2)}, l2=l2, settings={'struct': s})
+    return g
